@@ -18,6 +18,7 @@ func wireLength(w *World, wc *wireCtx, r *Report) {
 	// with the declared target (the routine is found by what it does, not by its name)
 	lenAttrStore, lenOfStore, targetStore := false, false, false
 	cmpOK := false
+	kindDependent := ""
 	var vpd *ssa.Function
 	for _, pf := range parsePhaseFuncs(w) {
 		pf := pf
@@ -40,6 +41,23 @@ func wireLength(w *World, wc *wireCtx, r *Report) {
 						if _, f2, _, _ := fieldOf(fa2); f2 == "Attr" {
 							lenAttrStore = true
 							vpd = pf
+							if cd == nil {
+								cd = computeCD(pf)
+							}
+							// the link does not depend on what kind of field the target is (an early `continue` in a kind-specific branch
+							// above the link would make it so)
+							for _, d := range cd.allCtrl(b) {
+								cond := branchCond(d.Branch)
+								if cond == nil {
+									continue
+								}
+								if tf, _ := fieldTest(cond); tf != nil {
+									kindDependent = w.instrPos(d.Branch.Instrs[len(d.Branch.Instrs)-1])
+								}
+								if mentionsField(cond, "IsIner", 0) || mentionsField(cond, "RefPacket", 0) {
+									kindDependent = w.instrPos(d.Branch.Instrs[len(d.Branch.Instrs)-1])
+								}
+							}
 							if cd == nil {
 								cd = computeCD(pf)
 							}
@@ -85,6 +103,7 @@ func wireLength(w *World, wc *wireCtx, r *Report) {
 	}
 	chk(lenAttrStore, "target field receives the length field's attribute as LenAttr", "no parse-phase routine stores the length field's attribute into the target's LenAttr: no generator will back-patch")
 	chk(cmpOK, "the target is selected by comparing names with the declared @lengthOf target", "the LenAttr store is not controlled by a comparison of a field name with TragetField.Name")
+	chk(kindDependent == "", "the target is linked whatever kind of field it is", "whether the target receives LenAttr depends on a test of the target's own kind (branch at "+kindDependent+"): a target of the other kind is never back-patched and the length stays 0")
 	chk(lenOfStore, "the length field is marked with a LengthOfAttribute", "the length field itself no longer receives a LengthOfAttribute")
 	chk(targetStore, "the length field's target is the declared field, found by a checked lookup", "TragetField is not assigned from a checked (found) lookup of the declared name")
 	// both spellings construct a LengthFieldAttribute with a target taken from the attribute's `from` label
@@ -125,6 +144,96 @@ func wireLength(w *World, wc *wireCtx, r *Report) {
 		}
 	}
 	r.floor(ruleCell, 15)
+}
+
+// wirePairDedup: every seen-set over match pairs found under a generator is judged by what the function emits with the filtered pairs:
+// an emitter of per-key text (decode arms, dispatch tables) needs one entry per key, an emitter of per-packet text (Rust enum variants,
+// encode arms, imports) one per packet. onlyRole restricts the judged emitters ("" = all).
+func wirePairDedup(w *World, wc *wireCtx, r *Report, ruleDedup string, onlyRole string) {
+	// ---- dedup keys ----
+	// every seen-set over match pairs found under a generator is judged by the role of the function it filters for:
+	// decode emitters need one entry per key; Rust's enum declaration and encode arms need one entry per packet.
+	nSets := 0
+	for _, ga := range anchorTable {
+		for _, fn := range wc.anchors[ga.Lang]["own"] {
+			if roleOf(fn) == "test" || (onlyRole != "" && roleOf(fn) != onlyRole) {
+				continue
+			}
+			keys := dedupKeys(w, fn, 0, map[*ssa.Function]bool{})
+			if len(keys) == 0 {
+				continue
+			}
+			// what does this function emit with the filtered pairs?
+			var usesKey, usesVal bool
+			for _, st := range wc.m.sitesOf(fn) {
+				pf := pairUse(wc, st)
+				if pf["Key"] {
+					usesKey = true
+				}
+				if pf["Value"] {
+					usesVal = true
+				}
+			}
+			want := ""
+			why := ""
+			switch {
+			case usesKey:
+				want, why = "Key", "it emits one entry per key: several keys may map to one packet and each needs its entry"
+			case usesVal:
+				want, why = "Value", "it emits one entry per packet (enum variant / encode arm / import): a repeated entry does not compile"
+			default:
+				continue
+			}
+			nSets++
+			key := fmt.Sprintf("%s: %s filters pairs by %s only", ga.Lang, fnKey(fn), want)
+			var bad []string
+			for k := range keys {
+				if k != want {
+					bad = append(bad, k)
+				}
+			}
+			sort.Strings(bad)
+			if len(bad) > 0 {
+				r.fail(ruleDedup, key, w.pos(fn.Pos()), fmt.Sprintf("pairs reaching this emitter are de-duplicated by MatchPair.%s, but %s", strings.Join(bad, ","), why))
+			} else {
+				r.pass(ruleDedup, key, w.pos(fn.Pos()), why)
+			}
+		}
+	}
+	// Rust: the enum and the encoder must de-duplicate by packet at all
+	for _, fn := range wc.anchors["rust"]["own"] {
+		if onlyRole != "" {
+			break
+		}
+		if roleOf(fn) == "test" {
+			continue
+		}
+		var usesKey, usesVal, inPairLoop bool
+		for _, st := range wc.m.sitesOf(fn) {
+			pf := pairUse(wc, st)
+			if pf["Key"] {
+				usesKey = true
+			}
+			if pf["Value"] {
+				usesVal = true
+				inPairLoop = true
+			}
+		}
+		if !inPairLoop || usesKey {
+			continue
+		}
+		keys := dedupKeys(w, fn, 0, map[*ssa.Function]bool{})
+		key := fmt.Sprintf("rust: %s emits one entry per packet", fnKey(fn))
+		if keys["Value"] {
+			r.pass(ruleDedup, key, w.pos(fn.Pos()), "pairs de-duplicated by MatchPair.Value")
+		} else if usesVal {
+			r.fail(ruleDedup, key, w.pos(fn.Pos()), "emits per-packet text (enum variant / match arm / use line) for every pair without de-duplicating by packet: two keys mapping to one packet repeat the entry, which rustc rejects")
+		}
+	}
+	if nSets < 2 && onlyRole == "" {
+		r.fail(ruleDedup, "seen-sets over match pairs found", "", fmt.Sprintf("expected the Rust emitters' seen-sets, found %d", nSets))
+	}
+
 }
 
 func mentionsField(v ssa.Value, name string, depth int) bool {
@@ -306,87 +415,7 @@ func wireMatch(w *World, wc *wireCtx, r *Report) {
 	}
 	r.floor(ruleDisp, 6)
 
-	// ---- dedup keys ----
-	const ruleDedup = "C05/pair-dedup"
-	// every seen-set over match pairs found under a generator is judged by the role of the function it filters for:
-	// decode emitters need one entry per key; Rust's enum declaration and encode arms need one entry per packet.
-	nSets := 0
-	for _, ga := range anchorTable {
-		for _, fn := range wc.anchors[ga.Lang]["own"] {
-			if roleOf(fn) == "test" {
-				continue
-			}
-			keys := dedupKeys(w, fn, 0, map[*ssa.Function]bool{})
-			if len(keys) == 0 {
-				continue
-			}
-			// what does this function emit with the filtered pairs?
-			var usesKey, usesVal bool
-			for _, st := range wc.m.sitesOf(fn) {
-				pf := pairUse(wc, st)
-				if pf["Key"] {
-					usesKey = true
-				}
-				if pf["Value"] {
-					usesVal = true
-				}
-			}
-			want := ""
-			why := ""
-			switch {
-			case usesKey:
-				want, why = "Key", "it emits one entry per key: several keys may map to one packet and each needs its entry"
-			case usesVal:
-				want, why = "Value", "it emits one entry per packet (enum variant / encode arm / import): a repeated entry does not compile"
-			default:
-				continue
-			}
-			nSets++
-			key := fmt.Sprintf("%s: %s filters pairs by %s only", ga.Lang, fnKey(fn), want)
-			var bad []string
-			for k := range keys {
-				if k != want {
-					bad = append(bad, k)
-				}
-			}
-			sort.Strings(bad)
-			if len(bad) > 0 {
-				r.fail(ruleDedup, key, w.pos(fn.Pos()), fmt.Sprintf("pairs reaching this emitter are de-duplicated by MatchPair.%s, but %s", strings.Join(bad, ","), why))
-			} else {
-				r.pass(ruleDedup, key, w.pos(fn.Pos()), why)
-			}
-		}
-	}
-	// Rust: the enum and the encoder must de-duplicate by packet at all
-	for _, fn := range wc.anchors["rust"]["own"] {
-		if roleOf(fn) == "test" {
-			continue
-		}
-		var usesKey, usesVal, inPairLoop bool
-		for _, st := range wc.m.sitesOf(fn) {
-			pf := pairUse(wc, st)
-			if pf["Key"] {
-				usesKey = true
-			}
-			if pf["Value"] {
-				usesVal = true
-				inPairLoop = true
-			}
-		}
-		if !inPairLoop || usesKey {
-			continue
-		}
-		keys := dedupKeys(w, fn, 0, map[*ssa.Function]bool{})
-		key := fmt.Sprintf("rust: %s emits one entry per packet", fnKey(fn))
-		if keys["Value"] {
-			r.pass(ruleDedup, key, w.pos(fn.Pos()), "pairs de-duplicated by MatchPair.Value")
-		} else if usesVal {
-			r.fail(ruleDedup, key, w.pos(fn.Pos()), "emits per-packet text (enum variant / match arm / use line) for every pair without de-duplicating by packet: two keys mapping to one packet repeat the entry, which rustc rejects")
-		}
-	}
-	if nSets < 2 {
-		r.fail(ruleDedup, "seen-sets over match pairs found", "", fmt.Sprintf("expected the Rust emitters' seen-sets, found %d", nSets))
-	}
+	wirePairDedup(w, wc, r, "C05/pair-dedup", "")
 
 	// ---- decoders consult the key field ----
 	var cs []cellResult
